@@ -105,14 +105,78 @@ fn gen_xi(rng: &mut Rng, open: bool) -> XI {
     }
 }
 
-/// the store of a `SimulationHarness` as seen through commands (only asked while no transaction
+/// a front end that hands the commands of several clients to ONE executor
+trait SharedBackend {
+    fn exec(&mut self, client: usize, args: &[Vec<u8>]) -> Rv;
+    fn name(&self) -> &'static str;
+}
+
+struct SimHarness(redis_sim::simulator::SimulationHarness);
+
+impl SharedBackend for SimHarness {
+    fn exec(&mut self, client: usize, args: &[Vec<u8>]) -> Rv {
+        self.0.advance_time_ms(1);
+        Rv::from_resp(&self.0.execute(client, to_command(args)))
+    }
+    fn name(&self) -> &'static str {
+        "SimulationHarness"
+    }
+}
+
+/// `RedisServer` on the event kernel (`Simulation`): clients on their own hosts send RESP frames
+/// as network messages, the server parses them with `RespParser` + `Command::from_resp` and runs
+/// them on its ONE executor
+struct SimServer {
+    sim: redis_sim::simulator::Simulation,
+    server: redis_sim::redis::RedisServer,
+    clients: Vec<redis_sim::redis::RedisClient>,
+}
+
+impl SimServer {
+    fn new(seed: u64, n_clients: usize) -> SimServer {
+        use redis_sim::redis::{RedisClient, RedisServer};
+        use redis_sim::simulator::{Simulation, SimulationConfig, VirtualTime};
+        let mut sim = Simulation::new(SimulationConfig { seed, max_time: VirtualTime::from_secs(100_000), simulation_start_epoch: 0 });
+        let sh = sim.add_host("server".into());
+        let server = RedisServer::new(sh);
+        let clients = (0..n_clients).map(|i| {
+            let h = sim.add_host(format!("client{}", i));
+            RedisClient::new(h, sh)
+        }).collect();
+        SimServer { sim, server, clients }
+    }
+}
+
+impl SharedBackend for SimServer {
+    fn exec(&mut self, client: usize, args: &[Vec<u8>]) -> Rv {
+        // client ids 1.. map to the clients, the dump's id 99 to the last one
+        let idx = if client == 99 { self.clients.len() - 1 } else { (client - 1).min(self.clients.len() - 2) };
+        let SimServer { sim, server, clients } = self;
+        let id = clients[idx].send_command(sim, crate::c05::frame(args));
+        sim.run(|sim, ev| {
+            server.handle_event(sim, ev);
+            for c in clients.iter_mut() {
+                c.handle_event(ev);
+            }
+        });
+        match clients[idx].get_response(id) {
+            Some(r) => Rv::from_resp(r),
+            None => Rv::Err("?no response from RedisServer".into()),
+        }
+    }
+    fn name(&self) -> &'static str {
+        "RedisServer"
+    }
+}
+
+/// the store of a shared front end as seen through commands (only asked while no transaction
 /// is open on the shared executor — otherwise the question itself would be queued)
-fn sh_dump(h: &mut redis_sim::simulator::SimulationHarness) -> String {
+fn sh_dump(h: &mut dyn SharedBackend) -> String {
     let mut keys: Vec<&str> = KEYS.to_vec();
     keys.sort_by(|a, b| crate::enc::key_cmp(a, b));
     let mut parts = Vec::new();
     for k in keys {
-        let ty = Rv::from_resp(&h.execute(99, to_command(&[b("TYPE"), b(k)])));
+        let ty = h.exec(99, &[b("TYPE"), b(k)]);
         let arr = |r: Rv| -> Vec<Vec<u8>> {
             match r {
                 Rv::Arr(Some(v)) => v.into_iter().filter_map(|x| if let Rv::Bulk(Some(b)) = x { Some(b) } else { None }).collect(),
@@ -125,26 +189,26 @@ fn sh_dump(h: &mut redis_sim::simulator::SimulationHarness) -> String {
         };
         match ty {
             Rv::Simple(t) if t == "string" => {
-                if let Rv::Bulk(Some(v)) = Rv::from_resp(&h.execute(99, to_command(&[b("GET"), b(k)]))) {
+                if let Rv::Bulk(Some(v)) = h.exec(99, &[b("GET"), b(k)]) {
                     parts.push(format!("{} S {}", hk(k), hex(&v)));
                 }
             }
             Rv::Simple(t) if t == "list" => {
-                let l = arr(Rv::from_resp(&h.execute(99, to_command(&[b("LRANGE"), b(k), b("0"), b("-1")]))));
+                let l = arr(h.exec(99, &[b("LRANGE"), b(k), b("0"), b("-1")]));
                 parts.push(format!("{} L {}{}", hk(k), l.len(), l.iter().map(|x| format!(" {}", hex(x))).collect::<String>()));
             }
             Rv::Simple(t) if t == "hash" => {
-                let l = arr(Rv::from_resp(&h.execute(99, to_command(&[b("HGETALL"), b(k)]))));
+                let l = arr(h.exec(99, &[b("HGETALL"), b(k)]));
                 let mut ps: Vec<(Vec<u8>, Vec<u8>)> = l.chunks(2).filter(|c| c.len() == 2).map(|c| (c[0].clone(), c[1].clone())).collect();
                 ps.sort_by(|a, b| (a.0.len(), a.0.as_slice()).cmp(&(b.0.len(), b.0.as_slice())));
                 parts.push(format!("{} H {}{}", hk(k), ps.len(), ps.iter().map(|(f, v)| format!(" {} {}", hex(f), hex(v))).collect::<String>()));
             }
             Rv::Simple(t) if t == "set" => {
-                let l = srt(arr(Rv::from_resp(&h.execute(99, to_command(&[b("SMEMBERS"), b(k)])))));
+                let l = srt(arr(h.exec(99, &[b("SMEMBERS"), b(k)])));
                 parts.push(format!("{} T {}{}", hk(k), l.len(), l.iter().map(|x| format!(" {}", hex(x))).collect::<String>()));
             }
             Rv::Simple(t) if t == "zset" => {
-                let l = arr(Rv::from_resp(&h.execute(99, to_command(&[b("ZRANGE"), b(k), b("0"), b("-1"), b("WITHSCORES")]))));
+                let l = arr(h.exec(99, &[b("ZRANGE"), b(k), b("0"), b("-1"), b("WITHSCORES")]));
                 let mut ps: Vec<(Vec<u8>, String)> = l.chunks(2).filter(|c| c.len() == 2).map(|c| (c[0].clone(), String::from_utf8_lossy(&c[1]).to_string())).collect();
                 ps.sort_by(|a, b| (a.0.len(), a.0.as_slice()).cmp(&(b.0.len(), b.0.as_slice())));
                 parts.push(format!("{} Z {}{}", hk(k), ps.len(), ps.iter().map(|(m, sc)| format!(" {} {}", hex(m), sc)).collect::<String>()));
@@ -160,13 +224,21 @@ fn sh_dump(h: &mut redis_sim::simulator::SimulationHarness) -> String {
     s
 }
 
-/// one session of 2..3 clients on ONE `SimulationHarness` (= one `CommandExecutor`)
-fn shared_session(out: &mut Out, rng: &mut Rng, script: Option<Vec<(usize, XI)>>) {
+/// one session of 2..3 clients on ONE executor behind a shared front end
+fn shared_session(out: &mut Out, rng: &mut Rng, script: Option<Vec<(usize, XI)>>, use_server: bool) {
     use redis_sim::simulator::SimulationHarness;
-    let mut h = SimulationHarness::new(rng.next());
-    h.advance_time_ms(1000);
-    out.op("SNEW".into(), "ok".into());
     let n_clients = rng.range(2, 3) as usize;
+    let mut backend: Box<dyn SharedBackend> = if use_server {
+        Box::new(SimServer::new(rng.next(), n_clients + 1))
+    } else {
+        let mut h = SimulationHarness::new(rng.next());
+        h.advance_time_ms(1000);
+        Box::new(SimHarness(h))
+    };
+    let h: &mut dyn SharedBackend = backend.as_mut();
+    let front = h.name();
+    out.count(&format!("shared:front-end:{}", front));
+    out.op("SNEW".into(), "ok".into());
     // who opened the transaction that is open on the executor (None = none open)
     let mut owner: Option<usize> = None;
     // inputs answered QUEUED since the MULTI, with the client that sent them
@@ -199,10 +271,9 @@ fn shared_session(out: &mut Out, rng: &mut Rng, script: Option<Vec<(usize, XI)>>
             v
         }
     };
-    let replay = |text: &Vec<String>| json!({"level": "shared executor (SimulationHarness)", "session": text});
+    let replay = |text: &Vec<String>| json!({"level": format!("shared executor ({})", front), "session": text});
     for (c, xi) in steps {
-        h.advance_time_ms(1);
-        let r = Rv::from_resp(&h.execute(c, to_command(&xi.args())));
+        let r = h.exec(c, &xi.args());
         let rs = show(&r, false);
         text.push(format!("client {}: {}", c, xi.text()));
         out.op(format!("S {} {}", c, xi.line()), rs.clone());
@@ -254,48 +325,89 @@ fn shared_session(out: &mut Out, rng: &mut Rng, script: Option<Vec<(usize, XI)>>
             }
         }
         if owner.is_none() {
-            let d = sh_dump(&mut h);
+            let d = sh_dump(h);
             out.op("SDUMP".into(), d);
         }
     }
     // the session is left with no transaction open, so that the dump can be taken
     if owner.is_some() {
-        let r = Rv::from_resp(&h.execute(1, to_command(&[b("DISCARD")])));
+        let r = h.exec(1, &[b("DISCARD")]);
         out.op("S 1 DISCARD".into(), show(&r, false));
-        out.op("SDUMP".into(), sh_dump(&mut h));
+        out.op("SDUMP".into(), sh_dump(h));
     }
-    out.case(&format!("shared|{}", text.join(";")), captured_total > 0 || text.iter().any(|t| t.ends_with("EXEC")));
+    out.case(&format!("shared:{}|{}", front, text.join(";")), captured_total > 0 || text.iter().any(|t| t.ends_with("EXEC")));
 }
 
 pub fn shared_executor(out: &mut Out, rng: &mut Rng, n: u64) {
-    // the witness of x_shared_captures_foreign_command_counterexample first
-    shared_session(
-        out,
-        &mut Rng::new(0xC05),
-        Some(vec![
-            (1, XI::Multi),
-            (2, XI::Cmd(Cmd::Set("k".into(), b("v")))),
-            (2, XI::Cmd(Cmd::Get("k".into()))),
-            (1, XI::Exec),
-        ]),
-    );
-    // a single-speaker window (x_shared_single_speaker_partial)
-    shared_session(
-        out,
-        &mut Rng::new(0xC05),
-        Some(vec![
-            (2, XI::Cmd(Cmd::Set("n".into(), b("0")))),
-            (1, XI::Watch(vec!["n".into()])),
-            (1, XI::Multi),
-            (1, XI::Cmd(Cmd::Incr("n".into()))),
-            (1, XI::Cmd(Cmd::Get("n".into()))),
-            (1, XI::Exec),
-        ]),
-    );
-    for _ in 0..n {
-        let mut r = rng.fork();
-        shared_session(out, &mut r, None);
+    for use_server in [false, true] {
+        // the witness of x_shared_captures_foreign_command_counterexample first
+        shared_session(
+            out,
+            &mut Rng::new(0xC05),
+            Some(vec![
+                (1, XI::Multi),
+                (2, XI::Cmd(Cmd::Set("k".into(), b("v")))),
+                (2, XI::Cmd(Cmd::Get("k".into()))),
+                (1, XI::Exec),
+            ]),
+            use_server,
+        );
+        // a single-speaker window (x_shared_single_speaker_partial)
+        shared_session(
+            out,
+            &mut Rng::new(0xC05),
+            Some(vec![
+                (2, XI::Cmd(Cmd::Set("n".into(), b("0")))),
+                (1, XI::Watch(vec!["n".into()])),
+                (1, XI::Multi),
+                (1, XI::Cmd(Cmd::Incr("n".into()))),
+                (1, XI::Cmd(Cmd::Get("n".into()))),
+                (1, XI::Exec),
+            ]),
+            use_server,
+        );
     }
+    for i in 0..n {
+        let mut r = rng.fork();
+        // every fourth session through RedisServer on the event kernel
+        shared_session(out, &mut r, None, i % 4 == 3);
+    }
+}
+
+/// the executor-level machine under a clock that moves WITHOUT eviction (`update_time_readonly`,
+/// public, no caller in the tree): WATCH snapshots and EXEC compares the RAW entry
+/// (`self.data.get(key)`), reads see the key as gone — recorded, not judged (see the assumptions)
+pub fn executor_lazy_clock_probe(out: &mut Out) {
+    let mut rows = BTreeMap::new();
+    for (label, ttl, advance, evict) in [("deadline-not-yet-passed", 5i64, 4u64, true), ("deadline-exactly-now:evicting-clock", 5, 5, true), ("deadline-passed:evicting-clock", 5, 6, true), ("deadline-exactly-now:lazy-clock", 5, 5, false), ("deadline-passed:lazy-clock", 5, 6, false)] {
+        let mut se = Sess::new(BASE_MS);
+        let k = "w".to_string();
+        let mut set = Command::set(k.clone(), SDS::new(b"v".to_vec()));
+        if let Command::Set { px, .. } = &mut set {
+            *px = Some(ttl);
+        }
+        se.exec(&set);
+        let w = se.exec(&Command::Watch(vec![k.clone()])).map(|r| reply_text(&r, crate::redisx::Order::AsIs));
+        se.set_now(BASE_MS + advance, evict);
+        // the non-mutating read (a plain GET would delete the expired entry as a side effect)
+        let get = Some(reply_text(&se.ex.execute_readonly(&Command::Get(k.clone())), crate::redisx::Order::AsIs));
+        se.exec(&Command::Multi);
+        se.exec(&Command::set("x".to_string(), SDS::new(b"1".to_vec())));
+        let e = se.exec(&Command::Exec).map(|r| reply_text(&r, crate::redisx::Order::AsIs));
+        out.count(&format!("executor-clock-probe:{}", label));
+        rows.insert(label.to_string(), json!({"WATCH": w, "GET w at EXEC time": get, "EXEC": e}));
+        // with the evicting clock (what every caller in the tree uses) the boundary is exact:
+        // the key is gone from `expiration <= now` on, and EXEC aborts from then on
+        let gone = get.as_deref() == Some("_");
+        let aborted = e.as_deref() == Some("_");
+        if evict && gone != aborted {
+            out.violation("C05:x:watch:expiry-boundary", &format!("executor level, evicting clock, {}: GET answers {:?} but EXEC answered {:?}", label, get, e), json!({"level": "executor", "row": label}));
+        }
+        if evict && (advance >= ttl as u64) != gone {
+            out.violation("C05:x:watch:expiry-boundary", &format!("executor level, evicting clock, {}: key visible = {}", label, !gone), json!({"level": "executor", "row": label}));
+        }
+    }
+    out.extra.insert("executor_level_expiry_of_a_watched_key(deadline 5 ms after WATCH; clock moved with / without eviction)".into(), json!(rows));
 }
 
 // ---------------------------------------------------------------- replicated front end
